@@ -1,9 +1,10 @@
 (* Entry points of the executable model, by name. One dispatcher so that the OCaml driver and
    the in-Coq case files need no per-function glue. *)
 From Coq Require Import ZArith NArith List String Bool.
-From Sia Require Import Prim.Result Prim.Tok Currency.Model.
+From Sia Require Import Prim.Result Prim.Tok Currency.Model Merkle.Tree Merkle.Forest Merkle.Acc.
 Import ListNotations.
 Open Scope string_scope.
+Open Scope list_scope.
 
 Definition tcur (c : cur) : list tok := [TZ (lo c); TZ (hi c)].
 Definition tcurb (r : cur * bool) : list tok := (tcur (fst r) ++ [tbool (snd r)])%list.
@@ -35,12 +36,37 @@ Definition api_c15 (name : string) (args : list tok) : option (list tok) :=
 
 Section Dispatch.
   Variable H : bytes -> bytes.     (* BLAKE2b-256, supplied by the driver *)
+
+  (* ---- C05/C04: accumulator ---- *)
+  Definition p_upd : parser eleaf := let* i := pN in let* e := pB in let* s := pbool in pret (mkLeaf e i s).
+  Definition p_add : parser (hash * bool) := let* e := pB in let* s := pbool in pret (e, s).
+  Definition p_block : parser block := let* us := plist p_upd in let* ads := plist p_add in pret {| b_updated := us; b_added := ads |}.
+  Definition p_query : parser (eleaf * list hash) :=
+    let* e := pB in let* i := pN in let* s := pbool in let* pr := plist pB in pret (mkLeaf e i s, pr).
+  Definition t_digits (a : acc) : list tok :=
+    List.concat (map (fun hd => match snd hd with Some r => [tnat (fst hd); TB r] | None => [] end) (combine (seq 0 (List.length a)) a)).
+  Definition t_hashes (l : list hash) : list tok := (tnat (List.length l) :: map TB l)%list.
+  Definition api_c05 (args : list tok) : list tok :=
+    match run_parser (let* bs := plist p_block in let* tr := plist pN in let* qs := plist p_query in pret (bs, tr, qs)) args with
+    | Some (bs, tr, qs) =>
+      let L := run bs in
+      let LH := map (leaf_hash H) L in
+      let a := roots H LH in
+      (tN (num_leaves a) :: t_digits a ++ [TZ (-1)]
+        ++ List.concat (map (fun k => t_hashes (naive_proof H LH k)) tr)
+        ++ [TZ (-1)]
+        ++ map (fun q => tbool (contains_leaf H a (fst q) (snd q))) qs)%list
+    | None => bad_args
+    end.
   Definition api_dispatch (name : string) (args : list tok) : list tok :=
     match api_c15 name args with
     | Some r => r
     | None =>
     match name, args with
     | "hash", [TB b] => [TB (H b)]
+    | "c05.run", _ => api_c05 args
+    | "c05.leafhash", [TB e; TZ i; TZ s] => [TB (leaf_hash H (mkLeaf e (Z.to_N i) (negb (Z.eqb s 0))))]
+    | "c05.proofroot", TB x :: TZ i :: ps => [TB (proofRootN H x (Z.to_N i) (List.concat (map (fun t => match t with TB b => [b] | _ => [] end) ps)))]
     | _, _ => bad_args
     end end.
 End Dispatch.
